@@ -34,6 +34,14 @@ Definition bind {A B} (r : res A) (f : A -> res B) : res B :=
 (* ---------- values ---------- *)
 Inductive atom := AZ (z : Z) | ABool (b : bool) | ABytes (b : bytes).
 
+Definition atom_eqb (a b : atom) : bool :=
+  match a, b with
+  | AZ x, AZ y => x =? y
+  | ABool x, ABool y => Bool.eqb x y
+  | ABytes x, ABytes y => beq_bytes x y
+  | _, _ => false
+  end.
+
 (* the value of a layout at a context: VPair for LSeq, VFlag for LOpt (flag, chosen branch),
    VList for LRep, VUnit for LEnd / LConst, the chosen branch's value for LVer *)
 Inductive value :=
@@ -254,7 +262,7 @@ Section Layout.
     | LOpt f a b, LOpt g a' b' => fexpr_eqb f g && layout_eqb a a' && layout_eqb b b'
     | LRep f _ a, LRep g _ a' => fexpr_eqb f g && layout_eqb a a'
     | LRest f _, LRest g _ => fexpr_eqb f g
-    | LConst p _, LConst q _ => prim_eqb F p q     (* the constant itself is the encoder's business *)
+    | LConst p k, LConst q k' => prim_eqb F p q && atom_eqb k k'
     | _, _ => false
     end.
 
